@@ -175,7 +175,7 @@ def parse_qlists(out):
 
 # ---------------------------------------------------------------------------------------------- real side + finder
 def snapshot(S):
-    return {"n": len(S), "ids": [id(a) for a in S], "lat": tuple(S.lattice.abcABG()), "rot": numpy.array(S.lattice.baserot).copy(),
+    return {"n": len(S), "ids": [id(a) for a in S], "lat": tuple(S.lattice.abcABG()), "rot": numpy.concatenate([numpy.array(getattr(S.lattice, k), dtype=float).flatten() for k in ("baserot", "base", "recbase", "normbase", "recnormbase", "stdbase", "metrics", "isotropicunit")]),
             "latid": id(S.lattice), "atoms": [(a.element, a.label, a.occupancy, a.xyz.copy(), a._U.copy(), a.anisotropy, id(a.lattice),
                                                 dict((k, v) for k, v in a.__dict__.items() if k not in ("xyz", "_U", "lattice")))
                                                for a in S]}
@@ -300,6 +300,9 @@ def independence_failures(S, N):
         g.occupancy = 0.123
         g.tag = -7
     N.lattice.setLatPar(a=N.lattice.a * 1.25, gamma=N.lattice.gamma - 1.0)
+    # re-orient the result (every matrix attribute of its lattice is rewritten), then rebuild it from a base
+    N.lattice.setLatPar(baserot=numpy.array([[0.0, 1.0, 0.0], [-1.0, 0.0, 0.0], [0.0, 0.0, 1.0]]).dot(N.lattice.baserot))
+    N.lattice.setLatBase(numpy.array(N.lattice.base)[[1, 2, 0]] * 1.5)
     if not same_snapshot(s_before, snapshot(S)):
         bad.append(("shares nothing", "editing the atoms/lattice of the result changed the input structure"))
     n_before = snapshot(N)
@@ -309,6 +312,7 @@ def independence_failures(S, N):
         a.element = "Yy"
         a.occupancy = 0.77
     S.lattice.setLatPar(b=S.lattice.b * 0.8, alpha=S.lattice.alpha + 0.5)
+    S.lattice.setLatPar(baserot=numpy.array([[1.0, 0.0, 0.0], [0.0, 0.0, 1.0], [0.0, -1.0, 0.0]]).dot(S.lattice.baserot))
     if not same_snapshot(n_before, snapshot(N)):
         bad.append(("shares nothing", "editing the atoms/lattice of the input changed the result"))
     objs = [id(g.xyz) for g in N] + [id(g._U) for g in N]
